@@ -71,6 +71,7 @@ func runC19(c *Ctx) {
 	const NI = "consensus/sync.NodeInfo"
 	checkCacheIndexesCoUpdated(c, "C19.R6 cache-indexes-co-updated")
 	checkHandlersServeTheChain(c)
+	checkBanThePeerThatServed(c, "C19.R8 ban-the-peer-that-served")
 
 	// ---- R1
 	{
@@ -998,4 +999,81 @@ func checkHandlersServeTheChain(c *Ctx) {
 		c.Require(rule, FuncKey(fn), p.Pos(fn.Pos()), "the handler answers from the chain as it is now: nothing reachable from it inside the sync package keeps state between requests", bad == "", bad)
 	}
 	c.MinInstances(rule, n, 3)
+}
+
+// checkBanThePeerThatServed — R8 (also C18.R15). The syncers download blocks from a peer of their
+// choosing (the peer handed to NewDownloader) and ban "the peer" when a downloaded block is
+// invalid. The ban must name the peer the blocks were requested from: fast sync downloads from
+// the peer whose block triggered it, block sync from the best peer it selected — banning the
+// trigger peer there punishes a peer that sent only well-formed traffic and lets the one that
+// served the bad block go on. Structural condition: for every function G that builds a Downloader
+// and hands it to a function H of the package, every BanPeer inside H, read with the arguments of
+// that call, names the peer-id argument NewDownloader was given (or the downloader's own field).
+func checkBanThePeerThatServed(c *Ctx, rule string) {
+	p := c.P
+	nd := p.Fn("pkg/consensus/sync.NewDownloader")
+	if nd == nil {
+		c.Undecided(rule, "NewDownloader", "anchor missing")
+		return
+	}
+	peerK := -1
+	for i, prm := range nd.Params {
+		if strings.HasSuffix(typeName(prm.Type()), "p2p.PeerID") {
+			peerK = i
+		}
+	}
+	if peerK < 0 {
+		c.Undecided(rule, "NewDownloader", "no parameter of type p2p.PeerID")
+		return
+	}
+	n := 0
+	for _, g := range p.Subjects() {
+		if !IsProd(g) || len(g.Blocks) == 0 || !strings.HasPrefix(FuncKey(g), "pkg/consensus/sync.") {
+			continue
+		}
+		for _, mk := range CallsIn(g, "consensus/sync.NewDownloader") {
+			dl, ok := mk.Call.(*ssa.Call)
+			if !ok {
+				continue
+			}
+			want := T(ArgK(mk.Call, peerK))
+			// where does the downloader go?
+			for _, use := range AllCallsDeep(g) {
+				h := use.Common().StaticCallee()
+				if h == nil || !IsOwn(h) || h == nd || len(h.Blocks) == 0 {
+					continue
+				}
+				passed := false
+				for _, a := range use.Common().Args {
+					if stripConv(a) == ssa.Value(dl) {
+						passed = true
+					}
+				}
+				if !passed || use.Common().IsInvoke() {
+					continue
+				}
+				if len(h.Params) > 0 && h.Signature.Recv() != nil && stripConv(use.Common().Args[0]) == ssa.Value(dl) {
+					continue // a method of the downloader itself
+				}
+				var args []*Term
+				for _, a := range use.Common().Args {
+					args = append(args, T(a))
+				}
+				for _, ban := range AllCallsDeep(h) {
+					if !strings.HasSuffix(CalleeName(ban.Common()), "Connection).BanPeer") {
+						continue
+					}
+					n++
+					bt := T(ArgK(ban, 1))
+					got := substParams(bt, args)
+					ok := got.String() == want.String()
+					if !ok && bt.Op == "field" && strings.HasSuffix(bt.Owner, "sync.Downloader") {
+						ok = true
+					}
+					c.Require(rule, FuncKey(h)+": BanPeer("+bt.String()+")", p.InstrPos(ban.(ssa.Instruction)), "the peer banned for a bad downloaded block is the peer the download was addressed to ("+want.String()+" in "+FuncKey(g)+")", ok, "banned: "+got.String()+"; downloaded from: "+want.String())
+				}
+			}
+		}
+	}
+	c.MinInstances(rule, n, 2)
 }
